@@ -3108,6 +3108,11 @@ func CreateCertificateRequest(rand io.Reader, template *CertificateRequest, priv
 	var attributes []pkix.AttributeTypeAndValueSET
 	attributes = append(attributes, template.Attributes...)
 
+	// extensionRequest holds the extensions that go into an attribute of their
+	// own. It is serialised from pkix.Extension values further down: an
+	// AttributeTypeAndValue has no place for the critical flag.
+	var extensionRequest []pkix.Extension
+
 	if len(extensions) > 0 {
 		// specifiedExtensions contains all the extensions that we
 		// found specified via template.Attributes.
@@ -3126,6 +3131,7 @@ func CreateCertificateRequest(rand io.Reader, template *CertificateRequest, priv
 		}
 
 		atvs := make([]pkix.AttributeTypeAndValue, 0, len(extensions))
+		kept := make([]pkix.Extension, 0, len(extensions))
 		for _, e := range extensions {
 			if specifiedExtensions[e.Id.String()] {
 				// Attributes already contained a value for
@@ -3133,6 +3139,7 @@ func CreateCertificateRequest(rand io.Reader, template *CertificateRequest, priv
 				continue
 			}
 
+			kept = append(kept, e)
 			atvs = append(atvs, pkix.AttributeTypeAndValue{
 				// There is no place for the critical flag in a CSR.
 				Type:  e.Id,
@@ -3152,14 +3159,10 @@ func CreateCertificateRequest(rand io.Reader, template *CertificateRequest, priv
 			break
 		}
 
-		// Otherwise, add a new attribute for the extensions.
+		// Otherwise, add a new attribute for the extensions (after the
+		// other attributes, below).
 		if !appended {
-			attributes = append(attributes, pkix.AttributeTypeAndValueSET{
-				Type: oidExtensionRequest,
-				Value: [][]pkix.AttributeTypeAndValue{
-					atvs,
-				},
-			})
+			extensionRequest = kept
 		}
 	}
 
@@ -3174,6 +3177,28 @@ func CreateCertificateRequest(rand io.Reader, template *CertificateRequest, priv
 	rawAttributes, err := newRawAttributes(attributes)
 	if err != nil {
 		return
+	}
+
+	if len(extensionRequest) > 0 {
+		attr := struct {
+			Type  asn1.ObjectIdentifier
+			Value [][]pkix.Extension `asn1:"set"`
+		}{
+			Type:  oidExtensionRequest,
+			Value: [][]pkix.Extension{extensionRequest},
+		}
+
+		b, err := asn1.Marshal(attr)
+		if err != nil {
+			return nil, errors.New("x509: failed to serialise extensions attribute: " + err.Error())
+		}
+
+		var rawValue asn1.RawValue
+		if _, err := asn1.Unmarshal(b, &rawValue); err != nil {
+			return nil, err
+		}
+
+		rawAttributes = append(rawAttributes, rawValue)
 	}
 
 	tbsCSR := tbsCertificateRequest{
